@@ -129,11 +129,20 @@ def gen_case(rng, devs):
                 pos["c"] += len(vals) * w[1] // 2
         elif seg == "e":
             place(None)
-            if rng.random() < 0.5:
+            r = rng.random()
+            if r < 0.4:
                 bs, text = db_operands(rng)
                 lines.append("  .db " + text)
                 eep.extend(bs)
                 pos["e"] += len(bs)
+            elif r < 0.65:
+                # word data in the byte-addressed EEPROM lands wherever the counter stands, odd offsets included
+                w = rng.choice([("dw", 2), ("dd", 4), ("dq", 8)])
+                vals = [rng.randrange(0, 60000) for _ in range(rng.randrange(1, 3))]
+                lines.append("  .%s %s" % (w[0], ", ".join(map(str, vals))))
+                for v in vals:
+                    eep.extend(v.to_bytes(w[1], "little"))
+                pos["e"] += len(vals) * w[1]
             else:
                 m = rng.randrange(0, 7)
                 lines.append("  .byte %d" % m)
